@@ -111,7 +111,11 @@ func c31Histories() []string {
 	out := []string{""}
 	ops := "RAB"
 	prev := []string{""}
-	for l := 1; l <= 3; l++ {
+	maxLen := 3
+	if evid.Thorough() {
+		maxLen = 5
+	}
+	for l := 1; l <= maxLen; l++ {
 		var cur []string
 		for _, p := range prev {
 			for _, o := range ops {
@@ -395,7 +399,7 @@ func c31() {
 					}
 				}
 				w.Outcome(out)
-				if c.AL == 2 && c.UAL == 4 && len(c.Hist) == 3 && c.Hist[0] == 'A' {
+				if c.AL == 2 && c.UAL == 4 && len(c.Hist) >= 3 && c.Hist[0] == 'A' {
 					w.Sample(map[string]any{"case": c, "steps": steps})
 				}
 				for _, v := range viol {
@@ -412,7 +416,7 @@ func c31() {
 		r.Violate("access/wire/server-died/"+fn, fmt.Sprintf("worker died while running %s\n%s\n%s", d.LastCase, head, lastLines(d.Stderr, 30)), d.LastCase)
 		r.Capped(fmt.Sprintf("worker %d died; the rest of its shard was not run", d.Shard))
 	}
-	r.Rule(fmt.Sprintf("8 AccessLevel options x 8 UserAccessLevel options (absent, uint8 0/Read/Write/Read|Write, uint32 Read, null Variant, DataValue without Variant) x %d histories (all sequences of length 0..3 over read, write v1, write v2) x 2 paths (direct namespace call, real client over TCP), each on its own node; non-trivial = non-empty history on a node with at least one of the two attributes present; distinct = (AccessLevel option, UserAccessLevel option, history)", len(hists)))
+	r.Rule(fmt.Sprintf("8 AccessLevel options x 8 UserAccessLevel options (absent, uint8 0/Read/Write/Read|Write, uint32 Read, null Variant, DataValue without Variant) x %d histories (all sequences of length 0..3 (thorough: 0..5) over read, write v1, write v2) x 2 paths (direct namespace call, real client over TCP), each on its own node; non-trivial = non-empty history on a node with at least one of the two attributes present; distinct = (AccessLevel option, UserAccessLevel option, history)", len(hists)))
 	r.Assume("absent attribute = no requirement; mistyped or null attribute = refusal or grant both accepted (only register consistency is judged); a panic inside the access check is counted as not judged here (crash property C29)")
 	r.Set("histories", len(hists))
 	r.Finish()
